@@ -8,6 +8,7 @@ their combination).  (Tree / route level theorems are added from `Proofs/SearchR
 import Compass.Proofs.Num
 import Compass.Model.Instance
 import Compass.Proofs.SearchRoute
+import Compass.Proofs.SearchDiscipline
 
 namespace Compass
 namespace C04
@@ -131,6 +132,25 @@ theorem route_edges_permitted (I : Inst α) (ok : Nat → Bool)
     (∀ v b, res.final.sol v = some b → ok b.edge = true) ∧
     (∀ route, res.route = some route → ∀ e ∈ route.map (·.edge), ok e = true) :=
   SearchRoute.route_edges_ok hloc h
+
+
+open SearchDiscipline in
+/-- Dijkstra, every configuration incl. turn restrictions and state-dependent models: every
+consecutive pair of edges of the returned route was submitted to the frontier model as
+(previous edge, edge) with the previous element's reported state, and accepted — so the route
+contains no restricted turn and no edge refused for the state it was reached in.
+(`_partial`: false of model and code for A* with an estimate inconsistent for the network, and at
+the two seams of edge-oriented routes — see known_findings.txt.) -/
+theorem dijkstra_route_turns_valid_partial (c : Config α) (hadj : c.AdjConsistent) (hwf : c.wf = some 0)
+    {source t : Nat} {sched : List Nat} {res : SearchResult α} (hts : t ≠ source)
+    (hrun : runVertexOriented c.inst source (some t) sched = .ok res) :
+    ∃ route, res.route = some route ∧ route ≠ [] ∧
+      (∀ b, route.head? = some b → c.inst.valid b.edge (initialState c.feats) none = .ok true) ∧
+      ∀ i (hi : i + 1 < route.length),
+        c.inst.valid route[i + 1].edge route[i].state (some route[i].edge) = .ok true := by
+  obtain ⟨route, h1, h2, _, _, h5, h6⟩ :=
+    route_links_fresh (c.inst_wf hadj) (config_zeroH c hwf) hts hrun
+  exact ⟨route, h1, h2, fun b hb => (h5 b hb).1, fun i hi => (h6 i hi).1⟩
 
 /-! ### Non-vacuity -/
 example : (FrontierM.roadClass (α := ℚ) (some [1, 2]) [0, 2, 5]).valid 1 none = some true := by decide
